@@ -20,9 +20,14 @@ static void *c13_memcpy(void *dst, const void *src, size_t n)
 				((unsigned char *)dst)[i] = ((const unsigned char *)src)[i];
 		}
 	} else {
+#ifndef C13_MEM_NO_WITNESS
 		size_t k = verif_nd_size("memcpy.k");
 		if (k < n)
 			((unsigned char *)dst)[k] = ((const unsigned char *)src)[k];
+#endif
+		/* C13_MEM_NO_WITNESS: payload bytes are not transferred at all;
+		 * sound only where no obligation and no branch of the function
+		 * under test reads payload bytes (stated in the harness) */
 	}
 	return dst;
 #endif
@@ -34,11 +39,13 @@ static void *c13_memset(void *dst, int c, size_t n)
 #ifdef VERIF_REPLAY
 	return memset(dst, c, n);
 #else
+#ifndef C13_MEM_NO_WITNESS
 	{
 		size_t k = verif_nd_size("memset.k");
 		if (k < n)
 			((unsigned char *)dst)[k] = (unsigned char)c;
 	}
+#endif
 	return dst;
 #endif
 }
